@@ -290,12 +290,26 @@ def call_np(interp, name, args, kwargs, lineno):
         # tolerances are part of the key (rtol / atol literal or default), so that the units domain can look at them.
         rtol = kwargs.get('rtol', args[2] if len(args) > 2 else Rat.const(Fraction(1, 100000)))
         atol = kwargs.get('atol', args[3] if len(args) > 3 else Rat.const(Fraction(1, 100000000)))
+        def _sample(v):
+            # a representative element of an operand, for the units domain (C17.H6)
+            if isinstance(v, (Rat, bool)):
+                return R(v)
+            try:
+                a_ = snap(v)
+                return a_.at(tuple(ZERO for _ in a_.shape))
+            except Exception:
+                return None
+        def _event(key):
+            interp.events.append(('tolpred', name, _sample(args[0]), _sample(args[1]), R(rtol), R(atol), interp.cur_file, lineno, key))
         if name == 'isclose':
             def ic(x, y):
                 return Rat.atom(('tolpred', 'isclose', x, y, R(rtol), R(atol)))
             if all(isinstance(a, (Rat, bool)) for a in args[:2]):
+                _event(('tolpred', 'isclose', R(args[0]), R(args[1]), R(rtol), R(atol)))
                 return ic(R(args[0]), R(args[1]))
+            _event(None)
             return Box(A.elementwise(ctx, ic, [args[0], args[1]], kind='bool', origin=lineno))
+        _event(('tolpred', 'allclose', ('line', interp.cur_file, lineno), R(rtol), R(atol)))
         return Rat.atom(('tolpred', 'allclose', ('line', interp.cur_file, lineno), R(rtol), R(atol)))
     if name == 'where':
         if len(args) != 3:
